@@ -19,7 +19,7 @@ func init() {
 }
 
 // one representative lexeme per token class
-var classLex = []string{"a", "1", "'s'", "null", "typeof", "(", ")", "[", "]", ",", ".", "!.", "...", "=", "?", ":",
+var classLex = []string{"a", "1", "'s'", "null", "false", "typeof", "(", ")", "[", "]", ",", ".", "!.", "...", "=", "?", ":",
 	"+", "!", "!!", "*", "||", "==", "<"}
 
 func emitParse(o *Out, text []byte, nontrivial bool) string {
@@ -132,6 +132,18 @@ func suiteGrammar(o *Out, thorough bool, seed int64) {
 		t := g.expr(0, 1+r.Intn(5))
 		emitParse(o, []byte(spaceOut(r, t)), true)
 	}
+	// (f) fixed shapes that random programs do not reach: the spread token anywhere but last, a comma between ? and :,
+	// every keyword literal in every position, callee positions that are not names, keywords in other letter case
+	for _, t := range []string{"f(a..., b)", "f(a..., b, c)", "f(x, a..., b)", "f(..., a)", "f(a...,)", "f(a... b)", "f(a, ...)", "f(...a)", "[a...]", "f(a)...", "f(...)", "f(a ...)", "f(.5...)",
+		"f(a...)...", "f(a... , )", "f(a)(b...)", "[f(a...)]", "f([a]...)", "f(a... ? 1 : 2)", "f(...)(...)",
+		"a ? b, c : d", "a ? b, c, d : e", "a ? $x = 1, $x : d", "f(a ? b, c : d)", "[a ? b, c : d]", "a ? (b, c) : d", "a ? b = c : d", "a ? b ? c : d : e", "a ? b : c, d", "a ? b : c = d", "a = b ? c : d",
+		"a ? b : c ? d : e", "a ?? b ? c : d", "a ? b ?? c : d", "(a ? b : c) ? d : e", "a ? : b", "a ? b :", "? a : b",
+		"false", "x == false", "false ? a : b", "f(false)", "[true, false, null, ctx, this]", "typeof false", "!false", "$a = false", "a.false", "false.a", "ctx.a", "false(1)", "false.k", "a.true.null", "a!.this",
+		"this.typeof", "typeof typeof x", "typeof a.b(c)", "typeof(a)", "typeof [a]", "ctx", "ctx(1)", "this(1)", "null.k", "null(1)",
+		"f(a)(b)", "f(a)(b)(c)", "f(a)()", "g.h(a.b)(c)", "(a)(b)", "(x ? f : g)(a)", "f(x).g(y)", "(a).b(c)", "this.f(a)", "'s'.k(a)", "[a].k(b)", "a.b(c).d(e)", "1(2)", "'s'(1)", "[f][0]",
+		"True", "NULL", "This.a", "Typeof a", "typeOf", "CTX", "False", "nullx", "xnull", "null1", "$null", "_this", "typeofa", "typeof1", "truefalse", "th\u0131s", "trUe + 1", "TYPEOF x"} {
+		emitParse(o, []byte(t), true)
+	}
 	// (e) not derivable, though everything but ONE character is: a single stray character after the member name
 	// that the parser's look-ahead (name on the line after the dot) has already seen once
 	for _, base := range []string{"a", "f(x", "[x", "(a", "g(1, y"} {
@@ -182,7 +194,15 @@ var shapes = []shape{
 	{"crlf", "\r\n"}, {"invalid-byte", "\xff"}, {"hash", "#"}, {"bang-dot", "a!."}, {"comma", ","}, {"bracket-colon", "[:"},
 	{"close-paren", ")"}, {"typeof", "typeof "}, {"dotdotdot", "..."}, {"quote", "'"}, {"backslash", "'\\"}, {"lt", "<"},
 	{"paren-pair", "(a)"}, {"arr-elem", "[a,"}, {"qq", "a??"}, {"call-open", "f("}, {"hex", "0x"}, {"e", "1e"},
+	// one giant token, mixed nesting, long chains of each recursive construct
+	{"digits", "9"}, {"sep-digits", "1_"}, {"ident", "ab"}, {"ident-cjk", "\u4e2d"}, {"paren-bracket", "(["}, {"cond-chain", "a?b:"}, {"not", "!"}, {"member-nl", "a.\nb,"},
+	{"coalesce", "a??b||"}, {"spread", "f(a...),"}, {"nested-call", "f(g("}, {"tilde-minus", "~-"}, {"ws-u2028", "\u2028"}, {"nbsp", "\u00a0"}, {"bom", "\ufeff"}, {"four-byte", "\U0001F600"},
 }
+
+// giant single tokens that need an opening: a string of escapes, a hex literal, a string of plain characters
+var giantTokens = []struct{ name, open, unit, close string }{
+	{"string-escapes", "'", "\\n", "'"}, {"string-unicode-escapes", "\"", "\\u0041", "\""}, {"hex-digits", "0x", "f", ""}, {"string-plain", "'", "a", "'"}, {"string-multibyte", "'", "\u00e9", "'"},
+	{"fraction", "0.", "1", ""}, {"exponent", "1e", "9", ""}, {"string-unterminated", "'", "ab", ""}, {"number-then-ident", "1", "a", ""}}
 
 var nopResults = map[string]string{}
 
@@ -259,6 +279,33 @@ func suiteParseBig(o *Out, thorough bool, seed int64) {
 		}
 		o.Notes = append(o.Notes, fmt.Sprintf("%s: 8KiB %v 64KiB %v", s.name, t8, t64))
 	}
+	for _, g := range giantTokens {
+		var t8, t64 time.Duration
+		for _, n := range sizes {
+			text := []byte(g.open + strings.Repeat(g.unit, (n-len(g.open)-len(g.close))/len(g.unit)) + g.close)
+			d, obs, fails := cpuParse(text, 3)
+			line := fmt.Sprintf("NOP\tgiant\t%d:%s", n, g.name)
+			o.Case(line, "-", true)
+			o.Stat("giant-result-" + obs[:1])
+			for _, f := range fails {
+				if strings.Contains(f, "panicked") || strings.Contains(f, "did not return") || strings.Contains(f, "not of the form") || strings.Contains(f, "no error but") {
+					o.Fail(line, f)
+				}
+			}
+			if n == 8<<10 {
+				t8 = d
+			} else {
+				t64 = d
+			}
+		}
+		line := fmt.Sprintf("NOP\tgiant\t%d:%s", 64<<10, g.name)
+		if t64 > 5*time.Second {
+			o.Fail(line, fmt.Sprintf("a single %s token of 64 KiB took %v", g.name, t64))
+		}
+		if t8 > 5*time.Millisecond && t64 > 40*t8 {
+			o.Fail(line, fmt.Sprintf("time not roughly proportional: 8 KiB %v, 64 KiB %v", t8, t64))
+		}
+	}
 	// random and mutated byte strings (no model comparison at this size)
 	r := newRand(seed, "parsebig")
 	n := 300
@@ -304,7 +351,7 @@ func suiteParseBig(o *Out, thorough bool, seed int64) {
 
 var spacingLex = []string{"a", "b1", "$c", "_", "1", "2.5", "1.", ".5", "1e3", "'s'", "\"t\"", "null", "true", "typeof", "this",
 	"(", ")", "[", "]", ",", ".", "!.", "...", "=", "?", ":", "+", "-", "!", "!!", "~", "*", "/", "%", "<", "<=", ">", ">=",
-	"==", "===", "!=", "!==", "&&", "||", "??", "&", "|", "^", "é", "truex"}
+	"==", "===", "!=", "!==", "&&", "||", "??", "&", "|", "^", "é", "truex", "false", "ctx", "True", "NULL", "typeOf", "nullx", "xnull", "$null", "_this", "\u4e2d", "\u3042x"}
 
 var separators = []string{"", " ", "\t", "\u00a0", "\n", "\u2028", "  \t", "\r\n", "\u0085", "\n ", "\n\t", " \n ", "\r\n  ", "\u2028\u00a0",
 	"\ufeff", "\u200b", "\u1680", "\u2003", "\u3000", "\u202f", "\u205f", "\v", "\f", "\r", "\u2029", "\u00a0\ufeff", "\u200b\n"}
@@ -470,14 +517,21 @@ func tokenize(t string) []string {
 
 func suiteRanges(o *Out, thorough bool, seed int64) {
 	r := newRand(seed, "ranges")
+	fixedRanges := []string{"f(x).y", "f(x)(y)", "(a).b.c", "[1, 2].k", "a.b.c.d(e).f", "a.typeof", "a.null.this", "x!.y!.z", "0x1F + .5 + 1.", "\"s\" + ctx", "typeof typeof x", "a.\nb.c", "false ? [a] : (b)",
+		"f(a...)", "f(g(h(1)), [2, [3]])", "a ? b ? c : d : e", "$a = $b = 1", "- - ! ~ x", "a.b(c)(d).e!.f", "(((a)))", "[[], [[]]]", "'\\x41' + \"\\u0042\"", "1_0 + 0x1_F"}
 	g := &gen{r: r, idents: []string{"x", "y", "é"}, funcs: []string{"f", "g.h", "len"}, lits: []string{"1", "2.5", "'a'", "'é\\n'", "null", "true", "this"}}
 	triv := []string{" ", "\n", "\r\n", "\r", "\u2028", "\u2029", "\u0085", "\t", "\u00a0", ""}
 	n := 6000
 	if thorough {
 		n = 200000
 	}
-	for i := 0; i < n; i++ {
-		lex := tokenize(g.expr(0, 1+r.Intn(4)))
+	for i := 0; i < n+len(fixedRanges); i++ {
+		var lex []string
+		if i < len(fixedRanges) {
+			lex = []string{fixedRanges[i]}
+		} else {
+			lex = tokenize(g.expr(0, 1+r.Intn(4)))
+		}
 		var sb strings.Builder
 		sb.WriteString(triv[r.Intn(len(triv))])
 		for j, l := range lex {
@@ -565,6 +619,53 @@ func checkReparse(o *Out, text []byte, n formula.Expression) {
 
 func suiteErrPos(o *Out, thorough bool, seed int64) {
 	r := newRand(seed, "errpos")
+	// errors far down a text, every diagnostic of a source formatted more than once and in both orders, the
+	// look-ahead over a token that raises two scanner diagnostics
+	{
+		rep := strings.Repeat
+		texts := []string{rep("\n", 100) + "#", rep("a +\r\n", 80) + ")", rep("1,\u2028", 70) + "1 1", "[" + rep("1,\n", 300) + "]]", rep("x\n", 64) + "y y", rep("\u0085", 65) + "(", rep("a\r", 1000) + "?",
+			rep("'s' +\n", 63) + "'", rep("1 + \n", 64) + "1 1", rep("1 + \n", 65) + "1 1", rep("\r\n", 255) + ")", rep("\r\n", 256) + ")", rep("\r\n", 257) + ")",
+			"a.\nb 1_a", "a.\nb '\\xg\\xh'", "a.\nb 1_e", "a!.\r\nnull 1__2_", "(\r\n#\u2028#", "a.\nb 1__2__3", "f(a.\u2028b 0xg, 1_)", "[a.\nb 1e, 2e]"}
+		for _, t := range texts {
+			text := []byte(t)
+			emitParse(o, text, true)
+			src, err := formula.ParseSourceCode(text)
+			if err == nil || src == nil {
+				continue
+			}
+			first := map[int]string{}
+			for pass := 0; pass < 4; pass++ {
+				for k := range src.Diagnostics {
+					i := k
+					if pass%2 == 1 {
+						i = len(src.Diagnostics) - 1 - k
+					}
+					d := src.Diagnostics[i]
+					got := formula.FormatDiagnostic(src, d)
+					fresh := &formula.SourceCode{Text: text}
+					want := formula.FormatDiagnostic(fresh, d)
+					if got != want {
+						o.Fail("PA\t"+hx(text), fmt.Sprintf("diagnostic %d formats as %q on the parsed source and as %q on a source that has computed nothing yet", i, got, want))
+					}
+					if f, ok := first[i]; ok && f != got {
+						o.Fail("PA\t"+hx(text), fmt.Sprintf("diagnostic %d formats differently the second time: %q then %q", i, f, got))
+					}
+					first[i] = got
+					if m := errRe.FindStringSubmatch(got); m != nil {
+						lc := fmt.Sprintf("%s,%s", m[1], m[2])
+						o.Case(fmt.Sprintf("LC\t%s\t%d", hx(text), d.Start), lc+"|"+lc, true)
+					}
+				}
+				for off := 0; off <= len(text); off += 1 + len(text)/40 {
+					p := formula.GetFileLineAndCharacterFromPosition(src, off)
+					q := formula.PositionToLineAndCharacter(text, off)
+					if p != q {
+						o.Fail("PA\t"+hx(text), fmt.Sprintf("offset %d: the cached line table gives %v, a direct computation %v", off, p, q))
+					}
+				}
+			}
+		}
+	}
 	pieces := []string{"a", "1", "(", ")", "[", "]", ",", "+", "*", "?", ":", ".", "#", "'x", "1a", "é", "'é'", "\n", "\r\n", "\r", "\u2028", "\u2029", "\u0085", "\u00a0", "\t", "1_", "0x", "\\"}
 	n := 8000
 	if thorough {
